@@ -585,7 +585,7 @@ def shards(tier):
 
 
 def run_shard(spec, ctx):
-    n = ctx.pick(400, 3600)  # measured ~100 ms CPU per case (quick sizes), ~140 ms (thorough sizes)
+    n = ctx.pick(320, 3600)  # measured ~100 ms CPU per case (quick sizes), ~140 ms (thorough sizes)
     strat = _strategy(ctx.pick((3, 4, 3, 3, 14), (4, 5, 4, 4, 30)))
     rec = core.Rec()
     chunk = 3000
